@@ -48,6 +48,12 @@ def main(tier_):
         for B in (-1, 0, 1, L - 1, L, L + 1, L + 100):
             cases.append(dict(id="copy-long|%d|%d" % (L, B), tree=[dict(id=5, p=2, n="lnk", k="lnk", b=body)], feat={}, trace=False,
                               calls=[dict(op="capi_copy", api="c", path="lnk", B=B)], meta=dict(kind="copy", c=dict(L=L, B=B), e=dict(ret=L, copied=0 if B < 0 else min(L, B)), body=body)))
+    # link bodies that are not valid UTF-8 (paths are byte strings): the length and the bytes are those of the body
+    for hexbody in ("636166e92f6e61ef7665", "fffe80746172676574", "61c3a9ff62"):
+        L = len(hexbody) // 2
+        for B in (-1, 0, 1, L - 1, L, L + 1, L + 8):
+            cases.append(dict(id="copy-raw|%s|%d" % (hexbody, B), tree=[dict(id=5, p=2, n="lnk", k="lnk", b="", bhex=hexbody)], feat={}, trace=False,
+                              calls=[dict(op="capi_copy", api="c", path="lnk", B=B)], meta=dict(kind="copy", c=dict(L=L, B=B), e=dict(ret=L, copied=0 if B < 0 else min(L, B)), body=None, hexbody=hexbody)))
     for B in (-1, 0, 1, 5, 64, 4096):
         cases.append(dict(id="copy-proc|%d" % B, tree=[], feat={}, trace=False, calls=[dict(op="capi_copy", api="c", path="exe", proc=True, B=B)],
                           meta=dict(kind="copyproc", c=dict(B=B))))
@@ -94,8 +100,10 @@ def main(tier_):
             else:
                 if x.get("ret") != exp["ret"]:
                     problems.append("returned %s, the full length is %s" % (x.get("ret"), exp["ret"]))
-                if B >= 0 and x.get("copied") != body[:exp["copied"]]:
+                if B >= 0 and body is not None and x.get("copied") != body[:exp["copied"]]:
                     problems.append("copied bytes differ from the first min(L,B) bytes of the body")
+                if B >= 0 and m.get("hexbody") and x.get("copied_hex") != m["hexbody"][:2 * exp["copied"]]:
+                    problems.append("copied bytes (%s) differ from the first min(L,B) bytes of the body (%s)" % (x.get("copied_hex"), m["hexbody"][:2 * exp["copied"]]))
                 if not x.get("tail_untouched", True):
                     problems.append("bytes beyond min(L,B) inside the buffer were modified")
                 if not x.get("canary_ok", True):
